@@ -11,6 +11,7 @@ import importlib
 import inspect
 import io
 import os
+import re
 import subprocess
 import sys
 import warnings
@@ -26,6 +27,9 @@ TECHNIQUE = ("Coq proof over the model of gen's assembly/hoisting/CLI logic (hoi
              "named facts about ast.parse; guarded C19_partial + refutations with witnesses) + differential "
              "correspondence of Gen.v against doctrans.gen.gen / __main__.main on generated modules")
 TRUSTED = [
+    "oracle (interface clause): what the entries' source objects look like to the refined classifier (coq/model/C19Spec2.v: the "
+    ":cvar names of the class docstring, the nested function definitions with their depth and argument names) is read off "
+    "the source text of the generated input module by entry_shapes; every failed interface clause is classified on its own",
     "per-entry conversions (parse.function / parse.class_ and emit.class_ / emit.argparse_function, to_code) are INPUTS of "
     "the model (their text or exception kind is tabulated from the real run); that each generated definition describes "
     "the interface of its source object is checked by this oracle only (parameter names vs inspect.signature), not proved",
@@ -169,6 +173,22 @@ def _def_params(node, type_):
 
 def evaluate(case, ws, exc):
     """the property, as worded, on what the run left behind; returns (holds, what)"""
+    fs = evaluate_all(case, ws, exc)
+    return (not fs), (fs[0]["what"] if fs else "")
+
+
+def evaluate_all(case, ws, exc):
+    """the property, as worded, on what the run left behind: the failed clauses, [{what, iface}].  A failed INTERFACE
+    clause (iface = {entry, got, want}: the index of the mapping entry, the parameters its generated definition lists,
+    the parameters of the source object) does not end the evaluation: the other entries and the header are judged too;
+    any other failed clause (iface None) does"""
+    ifaces = []
+    ok, what = _evaluate(case, ws, exc, ifaces)
+    return ifaces + ([] if ok else [{"what": what, "iface": None}])
+
+
+def _evaluate(case, ws, exc, ifaces):
+    """(holds apart from the interface clauses, what); the failed interface clauses are appended to ifaces"""
     out_path = ws["out_path"]
     if case["existing"] is not None:
         if exc is None:
@@ -213,6 +233,7 @@ def evaluate(case, ws, exc):
             return False, "definition for %r is %s %r, expected %s %r" % (
                 k, type(d).__name__, getattr(d, "name", None), want_cls.__name__, nm)
         got, want = _def_params(d, case["type_"]), _param_names(obj)
+        got_all = list(got)
         # attributes the class documents on itself (`:cvar` lines; never a parameter of __init__ here) belong to the
         # interface next to the parameters of __init__: each once, in the documented order; the parameters of __init__
         # all of them, in the order of the signature
@@ -220,10 +241,13 @@ def evaluate(case, ws, exc):
         if cvars:
             got_cv, got = [g for g in got if g in cvars], [g for g in got if g not in cvars]
             if got_cv != cvars:
-                return False, "interface of %r: documented attributes %r, the class documents %r" % (nm, got_cv, cvars)
+                ifaces.append({"what": "interface of %r: documented attributes %r, the class documents %r" % (nm, got_cv, cvars),
+                               "iface": {"entry": j, "got": got_all, "want": want}})
+                continue
         if got != want:
-            return False, "interface of %r: parameters %r, source object has %r%s" % (
-                nm, got, want, " (besides the documented attributes %r)" % cvars if cvars else "")
+            ifaces.append({"what": "interface of %r: parameters %r, source object has %r%s" % (
+                nm, got, want, " (besides the documented attributes %r)" % cvars if cvars else ""),
+                "iface": {"entry": j, "got": got_all, "want": want}})
     header = body[:len(body) - 1 - n]
     if any(isinstance(s, (ast.ClassDef, ast.FunctionDef)) and s.name in names for s in header):
         return False, "a generated name is defined more than once"
@@ -245,17 +269,24 @@ def evaluate(case, ws, exc):
     return True, ""
 
 
-def run_point(case, pre=None):
-    """(exception/exit description or None, holds, what); pre = (ws, exc) when the child process already ran"""
+def run_point_all(case, pre=None):
+    """(exception/exit description or None, failed clauses as evaluate_all gives them); pre = (ws, exc) when the child
+    process already ran"""
     if pre is not None:
         ws, exc = pre
         with fam_gen.activated(ws):
-            ok, what = evaluate(case, ws, exc)
-        return exc, ok, what
+            fs = evaluate_all(case, ws, exc)
+        return exc, fs
     with fam_gen.workspace(case) as ws:
         exc = _run_cli(case, ws) if case.get("route") == "cli" else _run_api(case, ws)
-        ok, what = evaluate(case, ws, exc)
-    return exc, ok, what
+        fs = evaluate_all(case, ws, exc)
+    return exc, fs
+
+
+def run_point(case, pre=None):
+    """(exception/exit description or None, holds, what); pre = (ws, exc) when the child process already ran"""
+    exc, fs = run_point_all(case, pre)
+    return exc, (not fs), (fs[0]["what"] if fs else "")
 
 
 def _cli_worker(case):
@@ -276,6 +307,45 @@ def c19_request(fn, case):
     x = [Sym(case.get("route", "api")), o["gi"], opt(escape_prepend(case["prepend"]) if case.get("route") == "cli" else None),
          feats_of(case), opt(case["existing"])]
     return dumps([Sym(fn), x, o["table"]])
+
+
+_CVAR = re.compile(r"^\s*:cvar\s+([^:\s]+)\s*:", re.M)
+
+
+def entry_shapes(case):
+    """per mapping entry, read off the SOURCE of the input module: [is a class, the names its class docstring documents
+    with :cvar (docstring order), every function definition nested in it as [depth (1 = a statement of the class body),
+    name, argument names] in source order]"""
+    top = {n.name: n for n in ast.parse(case["module"]["src"]).body
+           if isinstance(n, (ast.ClassDef, ast.FunctionDef, ast.AsyncFunctionDef))}
+    out = []
+    for e in case["module"]["entries"]:
+        node = top.get(e["feat"].get("obj"))
+        if not isinstance(node, ast.ClassDef):
+            out.append([False, [], []])
+            continue
+        defs = []
+
+        def walk(n, depth):
+            for c in ast.iter_child_nodes(n):
+                if isinstance(c, ast.FunctionDef):
+                    a = c.args
+                    defs.append([depth, c.name, [x.arg for x in list(getattr(a, "posonlyargs", [])) + a.args + a.kwonlyargs]])
+                walk(c, depth + 1 if isinstance(c, (ast.ClassDef, ast.FunctionDef, ast.AsyncFunctionDef)) else depth)
+
+        walk(node, 1)
+        out.append([True, _CVAR.findall(ast.get_docstring(node) or ""), defs])
+    return out
+
+
+def c19_request_r(case, iface=None):
+    """the refined classifier (coq/model/C19Spec2.v): the old request plus the shapes of the entries' source objects and
+    one failed interface clause (None: none - the answer is then the old class and the old guard)"""
+    o = fam_gen.observe(_api_twin(case))
+    x = [Sym(case.get("route", "api")), o["gi"], opt(escape_prepend(case["prepend"]) if case.get("route") == "cli" else None),
+         feats_of(case), opt(case["existing"])]
+    f = opt(iface, lambda i: [i["entry"], list(i["got"]), list(i["want"])])
+    return dumps([Sym("c19_class_r"), x, o["table"], entry_shapes(case), f])
 
 
 def _api_twin(case):
@@ -367,7 +437,31 @@ def witnesses():
     s_ann, e_ann = fn('def f(a: int):\n    """\n    Do the f thing.\n\n    :param a: the a\n    :type a: ```int```\n    """\n'
                       '    pass\n', annotated=True)
     s_unt, e_unt = fn('def f(a):\n    """\n    Do the f thing.\n    """\n    pass\n', doc_style="summary")
+    # a documented attribute that is also a parameter of __init__; a class without __init__ that holds a helper class with one
+    s_shared = ('class Trainer(object):\n    """\n    The Trainer class.\n\n    :cvar registry: the registry\n'
+                '    :cvar epochs: the epochs\n    """\n\n    def __init__(self, dataset, epochs=3, batch_size=2):\n'
+                '        """\n        Do the Trainer thing.\n\n        :param dataset: the dataset\n'
+                '        :type dataset: ```str```\n\n        :param epochs: the epochs\n        :type epochs: ```int```\n\n'
+                '        :param batch_size: the batch_size\n        :type batch_size: ```int```\n        """\n'
+                '        self.dataset = dataset\n        self.epochs = epochs\n        self.batch_size = batch_size\n'
+                "\nM = {'Trainer': Trainer}\n")
+    e_shared = [{"key": "Trainer", "feat": dict(kind="class", obj="Trainer", doc_style="typed", annotated=False,
+                                               params=["dataset", "epochs", "batch_size"], ret=False, class_doc=True, ndef=2,
+                                               cvars=["registry", "epochs"], cvar_shared=True)}]
+    s_nested = ('class Outer(object):\n    """\n    The Outer class.\n    """\n\n    class Options(object):\n'
+                '        """ Helper of the enclosing definition """\n\n'
+                '        def __init__(self, verbose=False, colour=\'red\'):\n            """\n            Set up the helper.\n\n'
+                '            :param verbose: the verbose\n            :type verbose: ```bool```\n\n'
+                '            :param colour: the colour\n            :type colour: ```str```\n            """\n'
+                '            self.verbose = verbose\n            self.colour = colour\n'
+                "\nM = {'Outer': Outer}\n")
+    e_nested = [{"key": "Outer", "feat": dict(kind="class", obj="Outer", doc_style="typed", annotated=False, params=[],
+                                             ret=False, class_doc=True, ndef=0, nested="class-after", own_init=False)}]
     return [
+        ("entry-documented-attribute-reordered", _w("19", s_shared, e_shared)),
+        ("entry-documented-attribute-reordered", _w("20", s_shared, e_shared, type_="argparse", route="cli")),
+        ("entry-nested-class-init-merged", _w("21", s_nested, e_nested, type_="function")),
+        ("entry-nested-class-init-merged", _w("22", s_nested, e_nested)),
         ("api-appends-to-existing-output", _w("1", base, ea, existing="OLD = 1\n")),
         ("entry-undocumented-callable", _w("5", s_undoc, e_undoc)),
         ("entry-function-without-parameters", _w("6", s_nop, e_nop)),
@@ -425,15 +519,32 @@ def oracle(rng, tier):
         results = [None] * len(allpts)
         for i, p in enumerate(allpts):
             if i not in cli_futs:
-                results[i] = run_point(p)
+                results[i] = run_point_all(p)
         for i, f in cli_futs.items():
-            results[i] = run_point(allpts[i], pre=f.result())
+            results[i] = run_point_all(allpts[i], pre=f.result())
     classes, runs = _classify(allpts)
+    # every failed interface clause is classified on its own by the refined classifier (coq/model/C19Spec2.v)
+    # (a failed clause that is no interface clause - the run raised - is put to it without one)
+    rkeys = [(i, k) for i, (_, fs) in enumerate(results) for k, f in enumerate(fs)]
+    routs = run_model([c19_request_r(allpts[i], results[i][1][k]["iface"]) for i, k in rkeys]) if rkeys else []
+    refined = {key: _decode_class(o)[0] for key, o in zip(rkeys, routs)}
     hist, failures, disagree, seen = collections.Counter(), [], [], set()
-    for i, (p, (exc, ok, what), c, mr) in enumerate(zip(allpts, results, classes, runs)):
+    for i, (p, (exc, fs), c, mr) in enumerate(zip(allpts, results, classes, runs)):
+        ok, what = (not fs), (fs[0]["what"] if fs else "")
         is_w = i >= len(pts)
         brief = {k: v for k, v in p.items() if k not in ("tags",)}
         cls, guard = _decode_class(c)
+        # (what failed, its class): a failed interface clause has the class the refined classifier gives it, if any
+        recs = []
+        for k, f in enumerate(fs):
+            rc = refined.get((i, k)) if cls is None else None
+            if rc not in (None, "out-of-domain"):
+                recs.append((f["what"], rc))
+            elif guard:
+                recs.append((f["what"] + " [inside guard_C19]", None))
+            else:
+                recs.append((f["what"], cls))
+        point_classes = [c_ for _, c_ in recs]
         if cls == "out-of-domain":
             hist["out-of-domain"] += 1
             if is_w:
@@ -444,7 +555,8 @@ def oracle(rng, tier):
             hist["skipped-unmodelled"] += 1
             continue
         tag = "%s:%s:%s" % (p.get("route", "api"), p["type_"], "existing" if p["existing"] is not None else "fresh")
-        hist[("holds" if ok else "fails") + ":" + (cls or ("in-guard" if guard else "no-class")) + ":" + tag] += 1
+        hist[("holds" if ok else "fails") + ":" + (cls or next((c_ for c_ in point_classes if c_), None)
+                                                    or ("in-guard" if guard else "no-class")) + ":" + tag] += 1
         if "sweep_of" in p:
             hist["hash-seed-sweep:" + ("holds" if ok else "fails")] += 1
         if p.get("route") == "cli":
@@ -453,6 +565,11 @@ def oracle(rng, tier):
             if e["feat"].get("cvars"):
                 hist["entry-class-documents-attributes:%d-attrs+%d-init-params:%s" % (
                     len(e["feat"]["cvars"]), min(len(e["feat"]["params"]), 4), "holds" if ok else "fails")] += 1
+        for e in p["module"]["entries"]:
+            if e["feat"].get("cvar_shared"):
+                hist["entry-class-documents-an-init-parameter:%s" % ("holds" if ok else "fails")] += 1
+            if e["feat"].get("own_init") is False:
+                hist["entry-class-without-own-init:%s:%s" % (e["feat"].get("nested") or "nothing-nested", "holds" if ok else "fails")] += 1
         for e in p["module"]["entries"]:
             if e["feat"].get("nested"):
                 hist["entry-with-nested:%s:%s" % (e["feat"]["nested"], "holds" if ok else "fails")] += 1
@@ -467,10 +584,11 @@ def oracle(rng, tier):
             o = fam_gen.observe(_api_twin(p))
             if o["written"] is not None and unhx(m[0][1]) != o["written"]:
                 disagree.append({"case": brief, "model": "written text differs", "class": cls})
-        if guard and not ok:
-            failures.append({"case": brief, "what": what + " [inside guard_C19]", "class": None})
-        elif not ok:
-            failures.append({"case": brief, "what": what, "class": cls})
+        # one record per unclassified clause (at most three), one per class met at the point
+        for w_, c_ in [r for r in recs if r[1] is None][:3]:
+            failures.append({"case": brief, "what": w_, "class": None})
+        for c_ in sorted(set(c_ for c_ in point_classes if c_ is not None)):
+            failures.append({"case": brief, "what": next(w_ for w_, c2 in recs if c2 == c_), "class": c_})
         if guard and ok and p["existing"] is None:
             # (the prepend of a symbol-path point names the case's own module: its shape, not its text, makes it distinct)
             key = dumps([p["module"]["src"], p["type_"], p["name_tpl"],
@@ -489,10 +607,11 @@ def oracle(rng, tier):
                     failures.append({"case": brief, "what": "repaired case fails again or left the guard: " + what,
                                      "class": None})
             else:
-                hist["witness:" + expected + (":reproduced" if (not ok and cls == expected) else ":NOT-REPRODUCED")] += 1
-                if ok or cls != expected:
+                reproduced = not ok and (cls == expected or (point_classes and all(c_ == expected for c_ in point_classes)))
+                hist["witness:" + expected + (":reproduced" if reproduced else ":NOT-REPRODUCED")] += 1
+                if not reproduced:
                     failures.append({"case": brief, "what": "witness of %s no longer fails that way (holds=%s, class=%s)" % (
-                        expected, ok, cls), "class": None})
+                        expected, ok, cls or point_classes), "class": None})
         if not is_w and p["existing"] is None:
             python_facts(fam_gen.observe(_api_twin(p)), hist, failures, {"uid": p["uid"]})
     return {
